@@ -20,7 +20,8 @@ ASSUMPTIONS = [
     'O1 is a lint: a non key-based comparator is not necessarily wrong, a key-based one is total by construction',
 ]
 MANIFEST = {'text': 'structural necessary conditions of table/message agreement: count increments paired with label stores on all paths of new/update, merge transfers the count, every merge relabels '
-                    'queued and current messages, every merge site shows the merged lifecycle was never published (or unpublishes it), comparators over lifecycles are key-based.',
+                    'queued and current messages, every merge site shows the merged lifecycle was never published (or unpublishes it), comparators over lifecycles are key-based.'
+                    " Added: the published table is written only through update/empty/purge/refresh (every key holds exactly one value); delivered messages had their lifecycle marked for the final refresh; the listing's sort key follows the resume links transitively.",
             'technique': 'static analysis: MIR path pairing, typestate after merge sites, comparator totality lint'}
 
 
